@@ -1045,6 +1045,51 @@ pub fn units() -> Vec<Unit> {
             Fn("DlChannelReqPayload::frequency"),
         ],
     },
+    // ---- builder V (tie A for the channel selection, C09)
+    // `DynamicChannelPlan::select_tx_channel` with `get_random_in_range` and the "never spin" fallback.  The RNG is
+    // abstract (`RngOps`: `next_u32` of a state), the redraw loops run on a fuel (`Rt.loopM`: `none` when it is used up).
+    Unit {
+        module: "Gen.PlanSelectFn",
+        file: "lorawan-device/src/region/dynamic_channel_plans/mod.rs",
+        more_files: vec!["lorawan-device/src/region/mod.rs", "lorawan-device/src/region/constants.rs", "lorawan-device/src/mac/mod.rs", "lorawan-encoding/src/types.rs", "lorawan-device/src/region/fixed_channel_plans/mod.rs", "lorawan-device/src/region/fixed_channel_plans/join_channels.rs"],
+        imports: vec!["LoraVerif.Gen.Modulation", "LoraVerif.Gen.Region", "LoraVerif.Gen.ChannelMaskFn"],
+        items: vec![
+            ExternUnit("Gen.Modulation"),
+            ExternUnit("Gen.Region"),
+            ExternUnit("Gen.ChannelMaskFn"),
+            Enum("Frame"),
+            Newtype("DataRateRange"),
+            Struct("Channel"),
+            Fn("Channel::rx1_frequency"),
+            Fn("Channel::ul_frequency"),
+            StructPartial("DynamicChannelPlan", &["channels", "channel_mask"]),
+            Raw(PLAN_SELECT_RAW),
+            ExternStructRaw("RNG", &[]),
+            ExternConst("R::NUM_JOIN_CHANNELS", "u8", "R.NUM_JOIN_CHANNELS"),
+            ExternFn("R::datarates", "R.datarates", &[], "[Option<Datarate>]"),
+            ExternFnX("RNG::next_u32", "RngCore.next_u32", &[("self", "RNG")], "u32", &["self"], false),
+            Struct("TxChannel"),
+            Fn("DynamicChannelPlan::get_random_in_range"),
+            TraitFn("RegionHandler", "DynamicChannelPlan", "select_tx_channel"),
+            // the fixed plans (US915 / AU915): `FixedChannelPlan::select_tx_channel` with the join bias bookkeeping of
+            // `JoinChannels` (`has_bias_and_not_exhausted`, `first_data_channel`, `clear_join_bias`); the bank walk
+            // `JoinChannels::get_next_channel` is abstract (`JcOps`)
+            Enum("Subband"),
+            ExternStructRaw("AvailableChannels", &[]),
+            Struct("JoinChannels"),
+            StructPartial("FixedChannelPlan", &["channel_mask", "join_channels"]),
+            ExternConst("F::JOIN_DR_500KHZ", "DR", "F.JOIN_DR_500KHZ"),
+            ExternFn("F::datarates", "F.datarates", &[], "[Option<Datarate>]"),
+            ExternFn("F::uplink_channels", "F.uplink_channels", &[], "[u32]"),
+            ExternFn("F::downlink_channels", "F.downlink_channels", &[], "[u32]"),
+            Raw(PLAN_SELECT_RAW2),
+            ExternFnX("JoinChannels::get_next_channel", "JcOps.get_next_channel", &[("self", "JoinChannels"), ("rng", "RNG")], "u8", &["self", "rng"], true),
+            Fn("JoinChannels::has_bias_and_not_exhausted"),
+            Fn("JoinChannels::clear_join_bias"),
+            Fn("JoinChannels::first_data_channel"),
+            TraitFn("RegionHandler", "FixedChannelPlan", "select_tx_channel"),
+        ],
+    },
     ]
 }
 
@@ -1437,4 +1482,37 @@ class RegionOps (ρ : Type) where
   rx1_dr_offset_validate : ρ → Int → Option Int
   get_datarate : ρ → Int → Option Datarate
 variable {RegionCfg : Type} [RegionOps RegionCfg]
+"#;
+
+/// Lean text of the abstract part of `Gen.PlanSelectFn` (builder V)
+const PLAN_SELECT_RAW: &str = r#"/-- what `select_tx_channel` reads of the plan's region type `R: DynamicChannelRegion` -/
+structure DynRegion where
+  NUM_JOIN_CHANNELS : Int
+  datarates : List (Option Datarate)
+variable (R : DynRegion)
+/-- the random generator `RNG: RngCore`: `next_u32` on a generator state of any type -/
+class RngCore (RNG : Type) where
+  next_u32 : RNG → Int × RNG
+variable {RNG : Type} [RngCore RNG]
+/-- how many steps a redraw loop may take before the translation answers `none` -/
+class LoopFuel where
+  fuel : Nat
+variable [LoopFuel]
+/-- what `FixedChannelPlan::select_tx_channel` reads of the plan's region type `F: FixedChannelRegion` -/
+structure FixRegion where
+  JOIN_DR_500KHZ : DR
+  datarates : List (Option Datarate)
+  uplink_channels : List Int
+  downlink_channels : List Int
+variable (F : FixRegion)
+/-- `AvailableChannels` (the join-channel walk: a `ChannelMask<9>` of the channels not tried yet, the last one tried) -/
+structure AvailableChannels where
+  data : ChannelMask
+  previous : Option Int
+  deriving DecidableEq, Repr
+"#;
+const PLAN_SELECT_RAW2: &str = r#"/-- the bank walk `JoinChannels::get_next_channel(&mut self, rng)` (`none` = a panic or its redraw loop out of fuel) -/
+class JcOps (RNG : Type) where
+  get_next_channel : JoinChannels → RNG → Option (Int × JoinChannels × RNG)
+variable [JcOps RNG]
 "#;
